@@ -200,6 +200,18 @@ def render(toks):
     return "\n".join(out) + ("\n" if out else "")
 
 
+class IdxStr(str):
+    """spelling of a fixed template position; remembers which token it came from"""
+
+    def __new__(cls, v, i):
+        o = str.__new__(cls, v)
+        o.tok_index = i
+        return o
+
+    def __deepcopy__(self, memo):
+        return self
+
+
 class Token:
     """same attribute protocol as c_lexer.Token"""
 
@@ -269,6 +281,8 @@ class TokLexerBase:
         if len(dom) == 1:
             (j,) = dom
             ttype, tval = alpha.syms[j]
+            if self.SYM_COORDS:
+                tval = IdxStr(tval, i)
         else:
             ns = "" if tpl.var == "k" else tpl.var
             ttype = SymStr("T" + ns, i, key, var, alpha.types)
@@ -279,7 +293,7 @@ class TokLexerBase:
             name = tval.concretize() if isinstance(tval, SymStr) else tval
             is_type = self.type_lookup_func(name)
             ttype = "TYPEID" if is_type else "ID"
-            tval = name
+            tval = IdxStr(name, i) if self.SYM_COORDS else name
             self.classified.append((i, name, bool(is_type)))
         tok = Token(ttype, tval, line, col, i)
         self.handed.append(tok)
